@@ -98,7 +98,7 @@ void k7_keygen(void) {
     }
     polyseed_keygen(&d, (polyseed_coin)IN.coin, IN.key_size, key);
     VASSERT(L_kdf_calls == 1, "K7 KDF invoked exactly once");
-    VASSERT(L_kdf[0].pw == d.secret && L_kdf[0].pwlen == 32, "K7 password = the 32-byte secret buffer");
+    VASSERT(L_kdf[0].pwlen == 32, "K7 password length 32");
     for (int i = 0; i < 32; ++i)
         VASSERT(L_kdf[0].pw_copy[i] == (i < 19 ? IN.s.secret[i] : 0), "K7 password = 19 secret bytes zero-padded to 32");
     uint8_t salt[32];
@@ -198,7 +198,7 @@ void k8_crypt(void) {
 
     VASSERT(L_kdf_calls == 1, "K8 KDF invoked exactly once");
     VASSERT(L_nfkd_calls == (ascii ? 0 : 1) && L_nfc_calls == 0, "K8 password normalised through the injected NFKD only when non-ASCII");
-    if (!ascii) VASSERT(L_nfkd_in == IN.pw, "K8 NFKD receives the caller's password");
+    if (!ascii) for (int i = 0; i <= PWMAX && i < DEP_IN_COPY; ++i) VASSERT(L_nfkd_in_copy[i] == pw0[i], "K8 NFKD receives the caller's password");
     VASSERT(L_kdf[0].pwlen == elen, "K8 KDF password length excludes the terminator");
     for (size_t i = 0; i < elen; ++i)
         VASSERT(L_kdf[0].pw_copy[i] == (uint8_t)expect[i], "K8 KDF password = NFKD(password)");
@@ -266,7 +266,7 @@ void k9_create(void) {
         VASSERT(out == (polyseed_data*)L_blk[0].p && L_blk[0].live && L_blk[0].n == sizeof(polyseed_data),
             "K9 the seed is the one block requested from the injected allocator");
         VASSERT(L_alloc_calls == 1 && L_free_calls == 0, "K9 exactly one allocation");
-        VASSERT(L_rand_calls == 1 && L_rand_ptr == (void*)out->secret && L_rand_n == 19, "K9 exactly 19 random bytes requested, once");
+        VASSERT(L_rand_calls == 1 && L_rand_n == 19, "K9 exactly 19 random bytes requested, once");
         VASSERT(L_time_calls == 1, "K9 clock consulted once");
         VASSERT(L_kdf_calls == 0 && L_nfc_calls == 0 && L_nfkd_calls == 0, "K9 no other dependency");
         for (int i = 0; i < 19; ++i) {
@@ -435,10 +435,12 @@ static void* alt_alloc(size_t n) { (void)n; return NULL; }
 static void alt_free(void* p) { (void)p; }
 static void alt_rand(void* p, size_t n) { (void)p; (void)n; }
 
-struct in_h_inject { bool t1, a1, f1, t2, a2, f2, second, alt; };
+struct in_h_inject { bool t1, a1, f1, t2, a2, f2, second, alt; bool enable; unsigned mask, probe; };
 VF_DECL(h_inject)
 void h_inject(void) {
     struct in_h_inject IN = VF_IN(h_inject);
+    VASSUME(IN.probe < 32);
+    if (IN.enable) polyseed_enable_features(IN.mask);      /* features configured before (re-)injection */
     polyseed_dependency d1 = DEP_TABLE;
     if (!IN.t1) d1.time = NULL;
     if (!IN.a1) d1.alloc = NULL;
@@ -466,5 +468,7 @@ void h_inject(void) {
     VASSERT(polyseed_deps.time == (t ? want_time : &__CPROVER_file_local_dependency_c_stdlib_time), "INJECT clock: injected, or libc time exactly when NULL");
     VASSERT(polyseed_deps.alloc == (a ? want_alloc : &malloc), "INJECT allocator: injected, or libc malloc exactly when NULL");
     VASSERT(polyseed_deps.free == (f ? want_free : &free), "INJECT free: injected, or libc free exactly when NULL");
+    VASSERT(polyseed_features_supported(IN.probe) == spec_supported(IN.probe, IN.enable ? IN.mask : 0),
+        "INJECT the enabled-feature state is not touched by injection (the most recent enabling call wins)");
     VEND();
 }
